@@ -216,6 +216,18 @@ def run_placed(case, res=None):
             key3 = sch3.KeyGen() if scheme == "CGKO06.SSE1" else loader.SSEKey.deserialize(key1.serialize(), loader.SSEConfig(dict(cfg)))
             edb3 = sch3.EDBSetup(key3, db)
             r3 = reads_of(scheme, sch3, key3, edb3, db)
+        r4 = None
+        if case.get("process_boundary") and scheme != "CGKO06.SSE1":
+            # ... and a fourth one in a REAL fresh interpreter (same key, same database)
+            from vlib import fresh
+            o = fresh.run_job({"kind": "reads", "scheme": scheme, "cfg": cfg, "key_hex": key1.serialize().hex(), "db": fresh.db_to_json(db)},
+                              hashseed=5 + case["seed"] % 1000)
+            if "error" in o:
+                from vlib.runner import HarnessError
+                raise HarnessError("fresh-interpreter setup failed: %s" % o["error"])
+            if "exception" in o:
+                raise Violation("%s: setup/search in a fresh interpreter raised: %s" % (scheme, o["exception"]), "%s:fresh_interpreter_exception" % scheme)
+            r4 = [[tuple(x) if isinstance(x, list) else x for x in seq] for seq in o["reads"]]
     except Violation:
         raise
     except Exception as e:
@@ -244,6 +256,9 @@ def run_placed(case, res=None):
         if r1 == r2:
             raise Violation("%s: two setups of the same database read exactly the same slots for every keyword (%d block reads): "
                             "placement is not (pseudo-)random" % (scheme, m), "%s:placement_repeats" % scheme)
+        if r4 is not None and r1 == r4:
+            raise Violation("%s: a setup in another process (fresh interpreter, same key and database) reads exactly the same slots as the "
+                            "first one (%d block reads)" % (scheme, m), "%s:placement_repeats_across_processes" % scheme)
         if r1 == r3:
             raise Violation("%s: a setup in a fresh interpreter state (construction module reloaded, new scheme object, other entropy) "
                             "reads exactly the same slots as the first one (%d block reads): placement does not depend on fresh randomness" % (
@@ -369,6 +384,7 @@ def body(case, res):
         res.count(fp, nt, ["scheme:" + scheme, "part:sorted", "sigma:" + ("identity" if ident else "non_identity"),
                            "max_real_entries:" + (">=12" if max_real >= 12 else "<12")], sample=sample)
     else:
+        case.setdefault("process_boundary", case["seed"] % 6 == 0)
         try:
             info = run_placed(case, res)
         except Violation:
